@@ -159,3 +159,72 @@ Proof.
   apply Hkeep; [cbn [elapsed]; rewrite PeanoNat.Nat.add_0_r; apply le_n|reflexivity|exact Hls].
 Qed.
 
+(** ---- Design refutation (C12): a pinger that returns after a failed ping ----
+
+    Connection.ping() loops for ever; a failed Send has already started
+    reconnect().  The variant "return when the connection is broken" leaves the
+    re-established connection without a pinger: no pings, no pongs, and the 10 s
+    silence rule tears the healthy connection down again and again.
+
+    Tiny model: the pinger goroutine, the status, the health of the transport. *)
+Record pstate := mkPS { palive : bool; pconnected : bool; pbroken : bool }.
+
+Inductive plabel := PDrop | PPing | PReconnect.
+
+Section Pinger.
+  Variable exits : bool.   (* true: the pinger returns after a failed ping *)
+
+  Definition pstep (s : pstate) (l : plabel) : option pstate :=
+    match l with
+    | PDrop => if pconnected s then Some (mkPS (palive s) true true) else None
+    | PPing =>
+        if palive s then
+          if negb (pconnected s) then Some s                          (* "not connected yet": continue *)
+          else if pbroken s then Some (mkPS (negb exits) false true)   (* Send fails: go c.reconnect() *)
+          else Some s
+        else None
+    | PReconnect => if pconnected s then None else Some (mkPS (palive s) true false)
+    end.
+
+  Fixpoint pexec (s : pstate) (ls : list plabel) : option pstate :=
+    match ls with
+    | [] => Some s
+    | l :: t => match pstep s l with Some s' => pexec s' t | None => None end
+    end.
+End Pinger.
+
+Definition pinit : pstate := mkPS true true false.
+
+Theorem pinger_lost_refuted :
+  exists s, pexec true pinit [PDrop; PPing; PReconnect] = Some s /\
+            pconnected s = true /\ pbroken s = false /\
+            forall ls s', pexec true s ls = Some s' -> pstep true s' PPing = None.
+Proof.
+  eexists. split; [reflexivity|]. repeat split.
+  assert (H : forall ls s s', palive s = false -> pexec true s ls = Some s' -> palive s' = false).
+  { induction ls as [|l t IH]; cbn [pexec]; intros s s' Ha.
+    - intros [= <-]. exact Ha.
+    - destruct (pstep true s l) as [s1|] eqn:E; [|discriminate]. apply IH.
+      destruct l; unfold pstep in E; rewrite ?Ha in E.
+      + destruct (pconnected s); [|discriminate]. injection E as <-; first [exact Ha|reflexivity].
+      + discriminate.
+      + destruct (pconnected s); [discriminate|]. injection E as <-; first [exact Ha|reflexivity]. }
+  intros ls s' Hx. unfold pstep. rewrite (H ls _ s' (eq_refl : palive (mkPS false true false) = false) Hx). reflexivity.
+Qed.
+
+Theorem pinger_kept :
+  forall ls s, pexec false pinit ls = Some s -> pstep false s PPing <> None.
+Proof.
+  assert (H : forall ls s s', palive s = true -> pexec false s ls = Some s' -> palive s' = true).
+  { induction ls as [|l t IH]; cbn [pexec]; intros s s' Ha.
+    - intros [= <-]. exact Ha.
+    - destruct (pstep false s l) as [s1|] eqn:E; [|discriminate]. apply IH.
+      destruct l; unfold pstep in E; rewrite ?Ha in E.
+      + destruct (pconnected s); [|discriminate]. injection E as <-; first [exact Ha|reflexivity].
+      + destruct (negb (pconnected s)); [injection E as <-; first [exact Ha|reflexivity]|].
+        destruct (pbroken s); injection E as <-; first [exact Ha|reflexivity].
+      + destruct (pconnected s); [discriminate|]. injection E as <-; first [exact Ha|reflexivity]. }
+  intros ls s Hx. unfold pstep. rewrite (H ls pinit s eq_refl Hx).
+  destruct (negb (pconnected s)); [discriminate|]. destruct (pbroken s); discriminate.
+Qed.
+
